@@ -313,7 +313,7 @@ def sites_time_from_ts(
         try:
             nodes_time = nodes_time_unconstrained(tree_sequence)
         except ValueError as e:
-            e.args += "Try calling sites_time_from_ts() with unconstrained=False."
+            e.args += ("Try calling sites_time_from_ts() with unconstrained=False.",)
             raise
     else:
         nodes_time = tree_sequence.nodes_time
